@@ -60,11 +60,11 @@ impl From<ExitStatus> for ProcessEnd {
 			(Some(code), None, _) => {
 				NonZeroI64::try_from(i64::from(code)).map_or(Self::Success, Self::ExitError)
 			}
-			(None, Some(_), Some(stopsig)) => {
+			(None, _, Some(stopsig)) => {
 				NonZeroI32::try_from(stopsig).map_or(Self::Success, Self::ExitStop)
 			}
 			#[cfg(not(target_os = "vxworks"))]
-			(None, Some(_), _) if es.continued() => Self::Continued,
+			(None, _, _) if es.continued() => Self::Continued,
 			(None, Some(signal), _) => Self::ExitSignal(signal.into()),
 			(None, None, _) => Self::Success,
 		}
